@@ -321,7 +321,7 @@ fn dest_tables(m: &Model, ctx: &mut Ctx) {
     let variants = m.find_enum("OutputMode").map(|e| e.variants.clone()).unwrap_or_default();
     ctx.floor("C20.dest/output-modes", variants.len(), 3);
     let consts = const_resolver(m);
-    let ev = Evaluator { consts: &consts, call_hook: &crate::eval::no_hook };
+    let ev = Evaluator { consts: &consts, call_hook: &crate::eval::no_hook, inline: None };
     for v in &variants {
         ctx.oblige("C20.dest", &format!("OutputMode::{}", v), true);
         let val = if v == "SingleFile" { Val::Ctor(v.clone(), vec![Val::Sym("path".into())], BTreeMap::new()) } else { Val::ctor(v) };
@@ -356,7 +356,7 @@ fn dest_tables(m: &Model, ctx: &mut Ctx) {
 
 fn cli(m: &Model, ctx: &mut Ctx) {
     let consts = const_resolver(m);
-    let ev = Evaluator { consts: &consts, call_hook: &crate::eval::no_hook };
+    let ev = Evaluator { consts: &consts, call_hook: &crate::eval::no_hook, inline: None };
     // make_output_mode truth table
     if let Some(f) = anchor_fn(m, ctx, "C20.cli", None, "make_output_mode", Some("bin")) {
         let p = f.sig.inputs.iter().filter_map(|a| match a { syn::FnArg::Typed(t) => Some(tok(&t.pat)), _ => None }).next().unwrap_or("args".into());
